@@ -333,6 +333,10 @@ func (m *ListIntegrity) AfterOp(w *mc.World, ev *mc.Event) {
 				fmt.Sprintf("after %s by p%d listed table %s is not a complete valid table: %v", ev.Op, ev.Pid, n, err))
 			return
 		}
+		if m.HashID == "" {
+			// an empty directory has no hash type yet: the first committed table decides it
+			m.HashID = t.HashID
+		}
 		if t.HashID != m.HashID {
 			w.Violate(m.Prop, fmt.Sprintf(where, "list:wrong-hash-type"),
 				fmt.Sprintf("after %s by p%d listed table %s has hash id %s, stack is %s", ev.Op, ev.Pid, n, t.HashID, m.HashID))
@@ -346,8 +350,15 @@ func (m *ListIntegrity) AfterOp(w *mc.World, ev *mc.Event) {
 		prevMax = t.Max
 	}
 	if m.CheckOpen {
+		cfg := m.Cfg
+		switch m.HashID {
+		case "s256":
+			cfg.HashID = reftable.SHA256ID
+		case "sha1":
+			cfg.HashID = reftable.SHA1ID
+		}
 		err := OnClone(w, func(dir string) error {
-			st, err := reftable.NewStack(dir, m.Cfg)
+			st, err := reftable.NewStack(dir, cfg)
 			if err != nil {
 				return err
 			}
@@ -374,7 +385,7 @@ func firstNonEmpty(a, b string) string {
 
 func (m *ListIntegrity) AfterCall(w *mc.World, p *mc.Proc, call int, res string) {}
 func (m *ListIntegrity) AtEnd(w *mc.World)                                       {}
-func (m *ListIntegrity) Key(h io.Writer)                                         {}
+func (m *ListIntegrity) Key(h io.Writer)                                         { fmt.Fprintf(h, "hash=%s", m.HashID) }
 
 // ---------------------------------------------------------------- C04 refinement monitor
 
